@@ -7,7 +7,14 @@ import (
 )
 
 func BuildAnnotation(ctx *parser.AnnotationContext) core_domain.CodeAnnotation {
-	annotationName := ctx.QualifiedName().GetText()
+	annotationName := ""
+	if ctx.QualifiedName() != nil {
+		annotationName = ctx.QualifiedName().GetText()
+	} else if alt, ok := ctx.AltAnnotationQualifiedName().(*parser.AltAnnotationQualifiedNameContext); ok {
+		// `pkg.@Name` in front of a type: the annotation is the last identifier
+		identifiers := alt.AllIdentifier()
+		annotationName = identifiers[len(identifiers)-1].GetText()
+	}
 	annotation := core_domain.NewAnnotation()
 	annotation.Name = annotationName
 	if ctx.ElementValuePairs() != nil {
